@@ -124,6 +124,34 @@ def run(chk):
         if got != exp:
             chk.disagree(m["kind"], {"meta": m, "impl": exp, "model": got})
 
+    # ---- (b2) the gate of the uncoupled chain is the product gate of Props/C10 uncoupled_factorises -----------
+    # gate on bond b in a layer of fraction f: exp(dt f/4 w(b,b)/2 L_b) (x) exp(dt f/4 w(b,b+1)/2 L_{b+1}); weights and
+    # fractions are the model's (tied exactly above), the single-site propagators are scipy's expm of the site Liouvillian
+    from scipy.linalg import expm
+    w2 = lambda n, b, i: (2 if b == 0 else 1) if i == b else (2 if b == n - 2 else 1) if i == b + 1 else 0
+    for n in range(2, 6):
+        hs = [rng.uniform(-1, 1) * SZ + rng.uniform(-1, 1) * SX + rng.uniform(-1, 1) * oqupy.operators.sigma("y") for _ in range(n)]
+        chain = oqupy.SystemChain([2] * n)
+        for i in range(n):
+            chain.add_site_hamiltonian(i, hs[i])
+        Ls = [-1j * oqupy.operators.commutator(h) for h in hs]
+        for order in (1, 2):
+            dt = rng.choice([0.1, 0.3])
+            prop = compute_tebd_propagator(chain, dt, 1e-12, order)
+            frac = {1: 4, 2: 2}[order]
+            chk.search_cases += 1
+            for layer in prop.gate_layers:
+                for g in layer.gates:
+                    b = g.sites[0]
+                    tl, tr = g.tensors
+                    G = np.einsum("abc,cde->adbe", tl, tr).reshape(16, 16)       # (lo, ro), (li, ri)
+                    want = np.kron(expm(dt * frac / 4 * w2(n, b, b) / 2 * Ls[b]), expm(dt * frac / 4 * w2(n, b, b + 1) / 2 * Ls[b + 1]))
+                    if not np.allclose(G, want, atol=1e-9, rtol=0):
+                        chk.fail("uncoupled-gate", "a gate of an uncoupled chain is not the product of the single-site propagators for "
+                                 "(site weight) x (layer fraction) of the time step", {"n": n, "order": order, "bond": b, "dt": dt,
+                                                                                   "err": float(np.max(np.abs(G - want)))})
+    chk.count("uncoupled_gates_checked")
+
     # ---- (c) exactness where checkable ----------------------------------------------------------
     eps = 1e-8
     corr = oqupy.PowerLawSD(alpha=0.1, zeta=1, cutoff=2.0, cutoff_type="exponential", temperature=0.1)
